@@ -72,6 +72,19 @@ Definition render (k : bool * list str) : str :=
 
 Definition canon (p : str) : str := render (normalise (components p)).
 
+(* ---- lexical equivalence --------------------------------------------------------------------
+   What a path denotes, lexically: an absolute path is resolved from the root (the empty stack),
+   a relative one from a current directory, itself a stack of components (top first); '.' stays,
+   'x/..' cancels, a '..' with nothing to cancel is kept.  Two paths are lexically equivalent when
+   they are of the same kind (the root is preserved) and resolve to the same place from every
+   current directory. *)
+Definition resolve (cwd : list str) (k : bool * list str) : list str :=
+  fold_left norm_step (snd k) (if fst k then [] else cwd).
+
+Definition lex_equiv (p q : str) : Prop :=
+  fst (components p) = fst (components q) /\
+  forall cwd, resolve cwd (components p) = resolve cwd (components q).
+
 (* ---- the part before / after the last character satisfying f ------------------------------- *)
 
 Fixpoint take_while (f : Z -> bool) (l : str) : str :=
@@ -114,14 +127,17 @@ Definition spec_is_absolute (p : str) : bool :=
   | _ => false
   end.
 
-(* ---- getRelativePath: the hypotheses under which a lexical answer exists -------------------- *)
+(* ---- getRelativePath: the hypotheses under which a lexical answer exists --------------------
+   `from` and `to` must be of the same kind (no text leads from a relative place to the root or
+   back), and the normal form of `from` must not begin with '..' (to climb back down out of
+   '../x' one would need the name of the current directory, which no lexical function has). *)
 
 Definition has_dotdot (cs : list str) : bool := existsb (fun c => str_eqb c DOTDOT) cs.
 
 Definition rel_hyp (from to : str) : bool :=
-  nonempty from &&
   Bool.eqb (starts_with_sep from) (starts_with_sep to) &&
   negb (has_dotdot (snd (normalise (components from)))).
 
-(* what `from` followed by the answer r has to denote *)
-Definition rel_joined (from r : str) : str := from ++ 47 :: r.
+(* `from` with the answer r appended (the empty `from` is the current directory) *)
+Definition rel_joined (from r : str) : str :=
+  match from with [] => r | _ => from ++ 47 :: r end.
